@@ -19,7 +19,21 @@ ASSUMPTIONS = ['the recorded error tree (observe.flatten) is the reference for h
 HOSTILE = ['A~B', 'A*B', 'A:B', 'A^B', '~', 'X*Y*Z', 'P:Q:R', 'A~B*C:D']
 
 
+# positions whose content is copied from the input (everything else is the acknowledgement's own doing)
+ECHO = {'AK1': {1, 2, 3}, 'AK2': {1, 2, 3}, 'AK3': {1, 3}, 'IK3': {1, 3}, 'AK4': {2, 4}, 'IK4': {2, 4}, 'TA1': {1, 2, 3},
+        'ISA': {5, 6, 7, 8, 11, 12, 15}, 'GS': {2, 3, 6, 7}, 'CTX': {1, 2, 3, 4, 5, 6}}
+
+
 def ack_fits(ack_segs, d, fname):
+    r = _ack_fits(ack_segs, d, fname)
+    return r
+
+
+def _own(seg_id, pos):
+    return pos not in ECHO.get(seg_id, set())
+
+
+def _ack_fits(ack_segs, d, fname):
     """does every value of the acknowledgement satisfy the element definitions of its map (independent reading)?"""
     root = mm.load_map(fname)
     nodes = {}
@@ -30,24 +44,24 @@ def ack_fits(ack_segs, d, fname):
     for s in ack_segs:
         n = nodes.get(s.id)
         if n is None:
-            return False, 'segment %s not in %s' % (s.id, fname)
+            return False, 'segment %s not in %s' % (s.id, fname), (s.id, 0)
         if len(s.elems) > len(n.children):
-            return False, '%s has %d elements' % (s.id, len(s.elems))
+            return False, '%s has %d elements, its definition %d' % (s.id, len(s.elems), len(n.children)), (s.id, 0)
         for i, c in enumerate(n.children):
             comps = s.elems[i] if i < len(s.elems) else ['']
             if c.kind == 'ele':
                 v = comps[0] if s.id == 'ISA' or len(comps) == 1 else d['sub'].join(comps)
                 if len(comps) > 1 and s.id != 'ISA':
-                    return False, '%s%02d is composite' % (s.id, i + 1)
+                    return False, '%s%02d is composite' % (s.id, i + 1), (s.id, i + 1)
                 e = c15.expected_element(c, v, 'E', icvn, [])
                 if e is None or isinstance(e, tuple) or e:
-                    return False, '%s%02d=%r -> %r' % (s.id, i + 1, v, e)
+                    return False, '%s%02d=%r -> %r' % (s.id, i + 1, v, e), (s.id, i + 1)
             else:
                 if len(comps) > len(c.children):
-                    return False, '%s%02d too many components' % (s.id, i + 1)
+                    return False, '%s%02d too many components' % (s.id, i + 1), (s.id, i + 1)
                 if all(x == '' for x in comps):
                     if c.usage == 'R':
-                        return False, '%s%02d required composite empty' % (s.id, i + 1)
+                        return False, '%s%02d required composite empty' % (s.id, i + 1), (s.id, i + 1)
                     continue
                 for j, sc in enumerate(c.children):
                     v = comps[j] if j < len(comps) else ''
@@ -55,8 +69,8 @@ def ack_fits(ack_segs, d, fname):
                     if e is None:
                         continue
                     if isinstance(e, tuple) or e:
-                        return False, '%s%02d-%d=%r -> %r' % (s.id, i + 1, j + 1, v, e)
-    return True, ''
+                        return False, '%s%02d-%d=%r -> %r' % (s.id, i + 1, j + 1, v, e), (s.id, i + 1)
+    return True, '', None
 
 
 def check_case(case):
@@ -145,10 +159,13 @@ def check_case(case):
         else:
             fname = '999.5010.xml' if is999 else '997.4010.xml'
             try:
-                fits, why = ack_fits(segs, d, fname)
+                fits, why, where = ack_fits(segs, d, fname)
             except Exception as e:
                 raise core.HarnessError('ack_fits: %r' % e)
             out.classes.append('ack-fits' if fits else 'ack-values-do-not-fit')
+            if not fits and where is not None and _own(where[0], where[1]) and where[0] not in ('ISA', 'GS'):
+                # the misfit is at a position the acknowledgement fills on its own, not with a value copied from the input
+                out.fail('own-structure:%s' % where[0], 'the acknowledgement does not fit its own map at a position it generates itself: %s' % why)
             if fits and (fb.verdict is not True or fb.errors):
                 e = fb.errors[0] if fb.errors else None
                 out.fail('fed-back:rejected:%s' % ('%s/%s/%s' % (e['level'], e['code'], e['seg_id']) if e else 'verdict'),
